@@ -1333,6 +1333,7 @@ class Trust(Packet):
     @trustlevel.register(TrustLevel)
     def trustlevel_int(self, val):
         self._trustlevel = TrustLevel(val & 0x0F)
+        self._opaque = None
 
     @sdproperty
     def trustflags(self):
@@ -1341,10 +1342,12 @@ class Trust(Packet):
     @trustflags.register(list)
     def trustflags_list(self, val):
         self._trustflags = val
+        self._opaque = None
 
     @trustflags.register(int)
     def trustflags_int(self, val):
         self._trustflags = TrustFlags & val
+        self._opaque = None
 
     def __init__(self):
         super(Trust, self).__init__()
@@ -1366,17 +1369,18 @@ class Trust(Packet):
         body = packet[:self.header.length]
         del packet[:self.header.length]
 
-        if len(body) != 2:
-            # the format is implementation-defined; only the two-octet form is understood,
-            # any other body is kept as it was received
-            self._opaque = body
-            return
+        if len(body) == 2:
+            # the format is implementation-defined: read the two-octet form as far as it is understood
+            t = self.bytes_to_int(body)
+            try:
+                self.trustlevel = t
+                self.trustflags = t
 
-        # self.trustlevel = packet[0] & 0x1f
-        t = self.bytes_to_int(body)
+            except ValueError:
+                pass
 
-        self.trustlevel = t
-        self.trustflags = t
+        # whatever was read, the packet is kept (and written out again) as it was received
+        self._opaque = body
 
 
 class UserID(Packet):
